@@ -61,6 +61,14 @@ pub fn programs(rng: &mut StdRng, thorough: bool) -> Vec<(String, Vec<u8>)> {
     c.push(Item::Label(0));
     c.extend([p2(0xa0), p1(0), p1(0), Item::Op(0x39), p1(0), Item::Op(progen::MLOAD), p1(2), Item::Op(progen::SSTORE), Item::Op(progen::STOP)]);
     v.push(("copies-on-both-branches".into(), c));
+    // many short copies: no single instance of the loop is as long as the larger intervals, the work is in their number
+    let mut c = Vec::new();
+    for i in 0..10u8 {
+        let op = if i % 2 == 0 { 0x37 } else { 0x39 };
+        c.extend([p1(32 * (1 + i % 3)), p1(0), p2(32 * u16::from(i)), Item::Op(op)]);
+    }
+    c.extend(tail(1));
+    v.push(("many-short-copies".into(), c));
     // many slots: lifting / assignment / inference / unification / layout loops
     let mut c = Vec::new();
     for i in 0..(if thorough { 14 } else { 8 }) {
